@@ -3,6 +3,7 @@ from __future__ import annotations
 
 import ast
 
+from ..astx import calls_in, dotted, src
 from ..core import AnalysisError, Ctx, PropSpec, borrow
 from ..rules_blocks import check_block_nest
 from ..rules_coord import check_coord_discipline, check_position_parity, has_coord_source, parity_self_example
@@ -74,7 +75,14 @@ def run(ctx: Ctx) -> None:
                 seen.add(key)
                 na += 1
                 ctx.ob("C13.ACCUMULATE", rel, node, f"{q}: running sum `{canon(arr)}` accumulates in float64", k == F64, expected="a float64 accumulator (np.zeros without dtype, dtype=np.float64)", detail=f"the {'cumulative sum' if kind == 'cumsum' else 'recurrence A[i] = A[i-1] + x'} starts at the image border and is kept in {k}: its partial sums grow with the distance to the border, so beyond 2**24 they are rounded differently depending on where the image (or the crop) starts -- window sums obtained by difference are then not bit-identical between a tile and the whole image")
-    ctx.floor("C13.ACCUMULATE", na, 3)
+    # the sad/ssd window sum: np.sum over the float32 window view must accumulate in float64
+    pw = tree.func(SAD, "SadSsd.pixel_wise_aggregation")
+    sums = [c for c in calls_in(pw) if (dotted(c.func) or "") in ("np.sum", "np.nansum")]
+    for c in sums:
+        na += 1
+        dk = next((k.value for k in c.keywords if k.arg == "dtype"), None)
+        ctx.ob("C13.ACCUMULATE", SAD, c, f"SadSsd.pixel_wise_aggregation: `{src(c)[:80]}` accumulates in float64", dk is not None and canon(dk) in ("np.float64", "float"), expected="np.sum(window, (0, 1), dtype=np.float64)", detail="a float32 accumulation of the window costs is exact only below 2**24: for squared differences of 12/16-bit images the sum depends on the order of the rows, so a vertical flip (or another block layout) changes costs and winner-takes-all disparities")
+    ctx.floor("C13.ACCUMULATE", na, 4)
 
     # ---- ODD-WINDOW (shared with C10; K1 is a known finding)
     from .c10 import rule_kernel, rule_odd_window
@@ -126,6 +134,7 @@ SPEC = PropSpec(
 )
 
 MUTANTS = [
+    {"id": "window-sum-in-float32", "file": SAD, "old": "np.sum(aggregation_window, (0, 1), dtype=np.float64).astype(np.float32)", "new": "np.sum(aggregation_window, (0, 1))"},
     {"id": "mean-raster-accumulates-in-image-dtype", "file": IMG, "old": '        r_mean = np.r_[np.zeros((1, nx_)), img["im"].data]\n', "new": '        r_mean = np.r_[np.zeros((1, nx_), dtype=img["im"].dtype), img["im"].data]\n'},
     {"id": "eq-mean-raster-explicit-float64", "kind": "equiv", "file": IMG, "old": '        r_mean = np.r_[np.zeros((1, nx_)), img["im"].data]\n', "new": '        r_mean = np.r_[np.zeros((1, nx_), dtype=np.float64), img["im"].data]\n'},
     {"id": "col-offset-dropped-sad", "file": SAD, "old": '        index_col = index_col - img_left.coords["col"].data[0]  # If first col coordinate is not 0\n', "new": ""},
